@@ -165,7 +165,7 @@ def make_unit(fname, origin, dest):
         cases.insert(2, Case('outside-window=>#NUM!', g_window, e_num))
     if has_places:
         cases.insert(1, Case('places-outside-1..10=>#NUM!', g_badplaces, e_num))
-    return Unit(id=f'C19/engineering.{fname}', target=f'{MOD}:{fname}', inputs=inputs, cases=cases,
+    return Unit(id=f'C19/engineering.{fname}', target=f'{MOD}:{fname}', inputs=inputs, cases=cases, fork='product',
                 call=_call, native_call=_native_call,
                 canary=Case('canary', g_ok, (lambda number, places, out=None: spec.is_error(out if out is not None else places, 'NumExcelError'))),
                 doc=f'{fname}: {origin}->{dest}, window +-{B_}')
